@@ -29,7 +29,9 @@ RULE = ("client scripts from a grammar over AUTH (EXTERNAL / DBUS_COOKIE_SHA1 / 
         "cookie / malformed) computed from the server's live challenge; each script runs under one allowed-mechanism "
         "setting x socket credentials x chunking (one write, 1-byte dribble, random cuts, per line, cut around BEGIN, "
         "fixed k). Oracle: vf/sasl.py stepped alongside. distinct = (layer, scenario, mechanism setting, credential "
-        "class, chunking kind, final outcome, set of model branches taken)")
+        "class, chunking kind, final outcome, set of model branches taken). Admission layer: histories of "
+        "connect-as-uid / close / ReloadConfig with another <allow|deny user=/group=> policy on the real daemon, every "
+        "attempt judged against the policy in force, also while other connections of the same user exist")
 
 CRLF = b"\r\n"
 GUID = b"0123456789abcdef0123456789abcdef"
@@ -1233,6 +1235,9 @@ def _forced(rng, k, uid):
 # --------------------------------------------------------------------------------------- entry point
 
 def _dispatch(s):
+    if s[0] == "A":
+        from checks import c08adm
+        return c08adm.worker(s[1])
     return _worker_inproc(s[1]) if s[0] == "I" else _worker_daemon(s[1])
 
 
@@ -1290,6 +1295,9 @@ def run(tier, seed, replay=None, scale=1.0):
         nsh = 16 if tier == "quick" else 64
         shards = [("D", (seed, i, max(1, n_d // 16), b, root)) for i in range(16)] + \
                  [("I", (seed, i, max(1, n_in // nsh), exe, root)) for i in range(nsh)]
+        n_a = int((96 if tier == "quick" else 3000) * scale)
+        if os.getuid() == 0:
+            shards += [("A", (seed, i, max(1, n_a // 16))) for i in range(16)]
         can_switch = os.getuid() == 0
         if not can_switch:
             r.inconclusive.append("not running as root: sockets with other kernel credentials cannot be made")
@@ -1306,7 +1314,8 @@ def run(tier, seed, replay=None, scale=1.0):
                    ("branch:begin:cancel", 50), ("branch:begin:fd-agreed", 50), ("branch:non-ascii", 20),
                    ("daemon:hello-answered", 40), ("daemon:identity-checked", 40), ("daemon:disconnected", 20),
                    ("daemon-branch:external:uid-differs", 5), ("daemon-branch:cookie:hash-matches", 3),
-                   ("daemon:authenticated-as:uid", 20)):
+                   ("daemon:authenticated-as:uid", 20), ("admission:admitted", 200), ("admission:refused", 200),
+                   ("admission:reloads", 100), ("admission:refusal-expected-while-same-user-connected", 20)):
         r.require(ctr, q if full else 1)
     r.extra["model_branches_hit"] = sorted(k[7:] for k in r.counters if k.startswith("branch:"))
     r.extra["rejection_bounds_observed"] = sorted(int(k.split(":")[1]) for k in r.counters if k.startswith("rejection-bound:"))
@@ -1323,5 +1332,9 @@ def run(tier, seed, replay=None, scale=1.0):
         "bytes are buffered and required once an unterminated line exceeds it",
         "daemon layer: EXTERNAL identity is compared with the uid the connecting process really had (setuid helper), observed through "
         "GetConnectionUnixUser on a second connection",
+        "admission layer (checks/c08adm.py): histories of connect-as-uid / close / ReloadConfig; each attempt is judged against a "
+        "reference evaluation of the <allow|deny user=/group=> rules of the default and mandatory contexts in force at that moment "
+        "(last match wins; default: only the uid running the bus); the users' groups are the user database's (primary group only in "
+        "this sandbox)",
     ]
     return r.finish()
